@@ -179,4 +179,5 @@ def run(ck):
     narrowing_len_sweep(ck, crate("rs", "concordium_base"), re.compile(r"concordium_base::encrypted_transfers::"), re.compile(r"verify[a-z_0-9]*(::\{closure#\d+\})*$"))
     conditional_transcript_sweep(ck, crate("rs", "concordium_base"), re.compile(r"concordium_base::encrypted_transfers::"), floor=1)
     geometric_weight_sweep(ck, crate("rs", "concordium_base"), re.compile(r"concordium_base::(encrypted_transfers|elgamal|sigma_protocols::enc_trans)"), floor=2)
+    gated_verification_sweep(ck, crate("rs", "concordium_base"), re.compile(r"concordium_base::encrypted_transfers::"), floor=3)
     eq_polarity_sweep(ck, crate("rs", "concordium_base"), re.compile(r"concordium_base::encrypted_transfers::"), re.compile(r"verify[a-z_0-9]*(::\{closure#\d+\})*$"))
